@@ -247,6 +247,10 @@ class Builder:
                     last_tmpl = None
             except (RuntimeError, ValueError):
                 continue  # e.g. method registered twice, route after '*': construction refused, nothing added
+            except Violation:
+                raise
+            except Exception as e:  # noqa: BLE001 - a refusal is a ValueError/RuntimeError; anything else is the router tripping over a legal table
+                raise Violation(hyp.exc_key(e, "table-construction-raised"), f"registering {entry!r} under prefix {prefix!r} raised {e!r}")
         return app, model
 
     def cleanup(self) -> None:
@@ -374,10 +378,10 @@ def tables(draw, depth: int = 0):
         if k <= 6 or depth >= 2:
             entries.append(("route", draw(st.sampled_from(["GET", "GET", "POST", "*"])), draw(st.sampled_from(TEMPLATES))))
         elif k == 7:
-            entries.append(("static", draw(st.sampled_from(["/a", "/s", "/a/b"]))))
+            entries.append(("static", draw(st.sampled_from(["/a", "/s", "/a/b", "/a b", "/é/s"]))))
         elif k == 8:
-            entries.append(("subapp", draw(st.sampled_from(["/a", "/b", "/a/b", "/ab"])), draw(tables(depth + 1))))
-        elif depth == 0:
+            entries.append(("subapp", draw(st.sampled_from(["/a", "/b", "/a/b", "/ab", "/a b", "/é"])), draw(tables(depth + 1))))
+        elif depth <= 1:
             entries.append(("domain", "example.com", draw(tables(2))))
     return entries
 
@@ -410,61 +414,65 @@ def unit_orders(rec: Rec, shard: int, nshards: int, size: int) -> None:
     rec.exhaustive = True
 
 
-def unit_redirects(rec: Rec, n: int, offset: int) -> None:
-    """normalize_path_middleware never redirects off-site."""
+def check_redirect(rec2: Rec, case: dict) -> None:
+    """normalize_path_middleware never redirects off-site (request sent over an in-memory connection)."""
     from aiohttp import web
+    from vlib import memnet, refhttp
 
-    def body_r(rec2: Rec, case: dict) -> None:
-        from vlib import memnet, refhttp
+    loop = new_loop()
+    target = case.get("origin", "") + case["path"]  # origin-form, or absolute-form with any scheme / authority
+    try:
+        async def go():
+            async def h(request):
+                return web.Response(text="ok")
 
-        loop = new_loop()
-        try:
-            async def go():
-                async def h(request):
-                    return web.Response(text="ok")
+            mw = web.normalize_path_middleware(append_slash=case["append"], remove_slash=case["remove"], merge_slashes=case["merge"])
+            app = web.Application(middlewares=[mw])
+            for t in case["routes"]:
+                try:
+                    app.router.add_get(t, h)
+                except (RuntimeError, ValueError):
+                    pass
+            runner = web.AppRunner(app, access_log=None)
+            await runner.setup()
+            proto = runner.server()
+            peer = memnet.ScriptPeer()
+            memnet.connect_protocols(loop, [], peer, proto)
+            peer.send(b"GET " + target.encode("utf-8") + b" HTTP/1.1\r\nHost: site.example\r\nConnection: close\r\n\r\n")
+            for _ in range(200):
+                await asyncio.sleep(0)
+                if peer.lost:
+                    break
+            await runner.cleanup()
+            resps, problem = refhttp.frame_responses(bytes(peer.received), closed=True)
+            if problem or not resps:
+                return
+            r = resps[0]
+            if 300 <= r.status < 400:
+                loc = (r.get(b"location") or b"").decode("utf-8", "replace")
+                b_like = re.sub(r"[\t\r\n]", "", loc).replace("\\", "/")
+                for form in (loc, b_like):
+                    if form.startswith("//") or re.match(r"^[A-Za-z][A-Za-z0-9+.-]*:", form) or not form.startswith("/"):
+                        raise Violation("redirect-off-site", f"{target!r} redirected to {loc!r} (browser reading {form!r}); routes {case['routes']}")
 
-                mw = web.normalize_path_middleware(append_slash=case["append"], remove_slash=case["remove"], merge_slashes=case["merge"])
-                app = web.Application(middlewares=[mw])
-                for t in case["routes"]:
-                    try:
-                        app.router.add_get(t, h)
-                    except (RuntimeError, ValueError):
-                        pass
-                runner = web.AppRunner(app, access_log=None)
-                await runner.setup()
-                proto = runner.server()
-                peer = memnet.ScriptPeer()
-                memnet.connect_protocols(loop, [], peer, proto)
-                peer.send(b"GET " + case["path"].encode("utf-8") + b" HTTP/1.1\r\nHost: site.example\r\nConnection: close\r\n\r\n")
-                for _ in range(200):
-                    await asyncio.sleep(0)
-                    if peer.lost:
-                        break
-                await runner.cleanup()
-                resps, problem = refhttp.frame_responses(bytes(peer.received), closed=True)
-                if problem or not resps:
-                    return
-                r = resps[0]
-                if 300 <= r.status < 400:
-                    loc = (r.get(b"location") or b"").decode("utf-8", "replace")
-                    b_like = re.sub(r"[\t\r\n]", "", loc).replace("\\", "/")
-                    for form in (loc, b_like, unquote(loc) if False else loc):
-                        if form.startswith("//") or re.match(r"^[A-Za-z][A-Za-z0-9+.-]*:", form) or not form.startswith("/"):
-                            raise Violation("redirect-off-site", f"{case['path']!r} redirected to {loc!r} (browser reading {form!r}); routes {case['routes']}")
+        loop.drive(go(), max_time=100)
+    finally:
+        loop.shutdown()
+    rec2.case(case, case["path"].startswith(("//", "/\\", "/%")) or bool(case.get("origin")), ["redirect"] + (["redirect-absolute-form"] if case.get("origin") else []))
 
-            loop.drive(go(), max_time=100)
-        finally:
-            loop.shutdown()
-        rec2.case(case, case["path"].startswith(("//", "/\\", "/%")), ["redirect"])
 
+def unit_redirects(rec: Rec, n: int, offset: int) -> None:
     seg = st.sampled_from(["a", "b", "evil.com", "\\evil.com", "%2F", "%5Cevil.com", "\t", "%09", "@evil.com", ".", "..", "%2e%2e", "a b"])
     strat = st.fixed_dictionaries({
         "append": st.booleans(), "remove": st.just(False), "merge": st.booleans(),
         "routes": st.lists(st.sampled_from(["/a/", "/a", "/{x}/", "/{x}", "/{t:.*}/", "/evil.com/", "/{x}/{y}/", "/a/b"]), min_size=1, max_size=3),
         "path": st.tuples(st.sampled_from(["/", "//", "///", "/\\", "/%2F", "/%5C", "/\t/", "//%2F"]), st.lists(seg, max_size=3), st.sampled_from(["", "/", "//"])).map(
             lambda t: t[0] + "/".join(t[1]) + t[2]),
+        # the request target in absolute-form (RFC 9112 3.2.2): any scheme, any authority - the redirect stays a site-relative path
+        "origin": st.sampled_from(["", "", "", "http://site.example", "http://evil.example", "https://evil.example:444", "ws://evil.example", "wss://evil.example",
+                                   "ftp://evil.example", "HTTP://evil.example", "x-y.z+1://evil.example", "http://u:p@evil.example"]),
     })
-    hyp.run(rec, strat, body_r, n, seed_offset=offset, max_root_causes=3)
+    hyp.run(rec, strat, check_redirect, n, seed_offset=offset, max_root_causes=3)
 
 
 def units(tier: str, seed: int) -> list[Unit]:
@@ -480,5 +488,6 @@ def units(tier: str, seed: int) -> list[Unit]:
 
 def replay(rec: Rec, case) -> None:
     if isinstance(case, dict):
+        check_redirect(rec, case)
         return
     run_table(rec, [tuple(e) for e in case])
